@@ -68,16 +68,39 @@
         `&` or `<`) and MORE: every document that declares an entity with markup or a nested
         reference in its value, well-formed or not.
 
+    (7) round 2 -- THE STRONGEST CONDITIONAL THEOREM: entity values may contain references to other
+        general entities, to any depth ([simple_entities s]: the replacement text of every declared
+        internal general entity consists of Chars other than `&` and `<`, written directly or as
+        character references, and of references `&n;` with n a Name; no `]]>`):
+          accepted_is_wellformed_simple_partial :
+            forall s d, from_raw s = OOk ([], d) -> KnownD04_doc s = false -> simple_entities s = true ->
+              KnownNS s = false -> wf s = true
+        It adds WFC No Recursion and the entity constraints THROUGH nested references (Entity
+        Declared, Parsed Entity, No External Entity References, No < in Attribute Values) to (6), and
+        subsumes (4) and (6).  Method (Proofs/XmlWFSyntaxEntRec.v): [model_recursion_check_is_sound] --
+        the depth-first check of XmlDocument::new with its memory of finished / unfinished entities
+        answers Ok only for entities that are GOOD at some height ([goodb], a memoryless boolean
+        function of the table), by induction on its fuel; a good entity is expanded ([expand_good]) and
+        re-read in attribute values ([av_good]) by the specification without error, by induction on the
+        height, the path of the specification being duplicate-free and made of declared names, so
+        that its fuel suffices.
+        What [simple_entities] still excludes: `<` in replacement text (markup inside entity values)
+        and `&` produced by a character reference (double-escaped references) -- these two are exactly
+        the ways finding WF13 arises (the implementation does not re-read replacement text), but the
+        exclusion is wider than the finding: a well-formed document with markup in an entity value is
+        not covered either.
+
     Missing for the full conditional theorem
       forall s d, Known_C02 s = false -> from_raw s = OOk ([], d) -> wf s = true :
-    rung 3 for entities whose replacement text contains references or markup (No Recursion through
-    nested references; constraints inside the markup of replacement text, which is finding WF13).  Documents with a DOCTYPE are covered by the failing-input search of checks/C02.py
+    entity values with markup or with `&` from a character reference, for which the statement needs
+    the narrow classifier of WF13 (checks/C02.py) instead of [simple_entities].  Documents with a DOCTYPE are covered by the failing-input search of checks/C02.py
     (specification vs implementation, with expat as independent oracle of the specification). *)
 From Coq Require Import List NArith Bool.
 From XmlRs Require Import Base.CPred Spec.XmlChars Spec.XmlWF Model.Peg Gen.GrammarXmlGen Model.ParseActions Model.Info
   Proofs.NameLanguage Proofs.XmlWFLexical Proofs.XmlWFModel Proofs.ParseInvElem
   Proofs.XmlWFSyntaxLex Proofs.XmlWFSyntaxElem Proofs.XmlWFSyntaxDoc Proofs.XmlWFSyntaxCheck
-  Proofs.XmlWFSyntaxDtd Proofs.XmlWFSyntaxDtdElem Proofs.XmlWFSyntaxDtdDoc Proofs.XmlWFSyntaxDtdCheck.
+  Proofs.XmlWFSyntaxDtd Proofs.XmlWFSyntaxDtdElem Proofs.XmlWFSyntaxDtdDoc Proofs.XmlWFSyntaxDtdCheck
+  Proofs.XmlWFSyntaxEntRec Proofs.XmlWFSyntaxDtdFull.
 Import ListNotations.
 
 (** ** (3) *)
@@ -215,7 +238,36 @@ Proof.
   split; [exact (proj1 accepted_wf_plain_nonvacuous)|exact (proj1 (proj2 accepted_wf_plain_nonvacuous))].
 Qed.
 
+(** ** (7) the same with NESTED entity references: WFC No Recursion *)
+Theorem model_recursion_check_is_sound : forall ents ext attr fuel seen e seen',
+  lookup ents (en_name e) = Some e -> seen_inv ents ext attr seen ->
+  check_entity_ref fuel ents ext attr seen e true = IOk seen' ->
+  seen_inv ents ext attr seen' /\ exists h, goodb ents ext attr h e = true.
+Proof. exact cer_sound. Qed.
+
+Theorem constraints_simple_partial : forall (pd : pdoc) (d : document),
+  ParseInvDoc.p_doc_ok pd -> ok_doc pd = true -> simple_doc pd = true -> build_document pd = IOk d ->
+  exists root, check_doc (x_doc pd) = inr root.
+Proof. exact check_doc_simple. Qed.
+
+Theorem accepted_is_wf_xml10_simple_partial : forall (s : str) (d : document),
+  from_raw s = OOk ([], d) -> KnownD04_doc s = false -> simple_entities s = true -> wf_xml10 s = true.
+Proof. exact accepted_wf10_simple. Qed.
+
+Theorem accepted_is_wellformed_simple_partial : forall (s : str) (d : document),
+  from_raw s = OOk ([], d) -> KnownD04_doc s = false -> simple_entities s = true -> KnownNS s = false -> wf s = true.
+Proof. exact accepted_wf_simple. Qed.
+
+Example simple_hypotheses_satisfiable :
+  (exists d, from_raw ex_nested = OOk ([], d)) /\ KnownD04_doc ex_nested = false /\ simple_entities ex_nested = true
+  /\ plain_entities ex_nested = false /\ KnownNS ex_nested = false.
+Proof. exact accepted_wf_simple_nonvacuous. Qed.
+
 Print Assumptions wf_is_wf_xml10.
+Print Assumptions model_recursion_check_is_sound.
+Print Assumptions constraints_simple_partial.
+Print Assumptions accepted_is_wf_xml10_simple_partial.
+Print Assumptions accepted_is_wellformed_simple_partial.
 Print Assumptions constraints_plain_partial.
 Print Assumptions accepted_is_wf_xml10_plain_partial.
 Print Assumptions accepted_is_wellformed_plain_partial.
